@@ -1221,6 +1221,10 @@ where
             crate::verif::hit(crate::verif::RAW_ATOMIC, crate::verif::addr(&self.size_ctl), 0);
             let sc = self.size_ctl.load(Ordering::SeqCst);
             if sc >= 0
+                // NOTE: `table` and `next_table` were validated _before_ `size_ctl` was read, so
+                // `sc` may already belong to the resize of a later table; as in the Java code,
+                // only join if the generation stamp is that of `table`.
+                || (sc >> RESIZE_STAMP_SHIFT) != (rs >> RESIZE_STAMP_SHIFT)
                 || sc == rs + MAX_RESIZERS
                 || sc == rs + 1
                 || self.transfer_index.load(Ordering::SeqCst) <= 0
